@@ -1,4 +1,9 @@
-"""Function specs for fields/fq2.rs, fq4.rs, fq12.rs (layer L3) and their operator forms."""
+"""Function specs for fields/fq2.rs, fq4.rs, fq12.rs (layer L3).
+
+Every `oracle` is written against the extension-field definition of the property statements
+(tower.py) and is used twice: symbolically as the postcondition of the MIR body, numerically as the
+replay oracle for the real function reached through the hook driver.
+"""
 from vc import FnSpec, Case, expect_value, simple_cases, ref
 from poly import Poly, V, C
 from interp import S, Some, NONE, B, is_struct, Violation
@@ -7,48 +12,50 @@ import tower
 from tower import SYM, fresh, mk
 from facts import Q
 
-A = SYM
 HALF = (Q + 1) // 2
 SPECS = []
 
-def add(*a, **k):
-    SPECS.append(FnSpec(*a, **k))
+def add(fid, file, name, sig, atoms, cases, oracle, ty, prop, hook=None, post=None, pre_num=None):
+    SPECS.append(FnSpec(fid, file, name, sig, atoms, cases, post or expect_value(ty, oracle), prop=prop,
+                        hook=hook, oracle=oracle, pre_num=pre_num))
 
 FILES = {'Fq2': 'src/fields/fq2.rs', 'Fq4': 'src/fields/fq4.rs', 'Fq12': 'src/fields/fq12.rs'}
 PROPS = {'Fq2': ('C12',), 'Fq4': ('C17',), 'Fq12': ('C17', 'C11')}
+TYRE = {'Fq2': r'fq2::Fq2', 'Fq4': r'Fq4', 'Fq12': r'Fq12'}
 
-def tyre(ty):
-    return {'Fq2': r'fq2::Fq2', 'Fq4': r'Fq4', 'Fq12': r'Fq12'}[ty]
+def nr12(A, a):
+    return mk('Fq12', [A.nonresidue_times('Fq4', a[2][2]), a[2][0], a[2][1]])
 
 for ty in ('Fq2', 'Fq4', 'Fq12'):
     f = FILES[ty]
     low = ty.lower()
     at = ('Fq',)
     pr = PROPS[ty]
-    T = tyre(ty)
+    T = TYRE[ty]
     un = r'^\(&%s\) -> %s$' % (T, T)
     bi = r'^\(&%s, &%s\) -> %s$' % (T, T, T)
-    add('%s::add_inplace' % low, f, r'<impl>::add_inplace$', bi, at, simple_cases([ty, ty], at), expect_value(ty, lambda a, b, ty=ty: A.add(ty, a, b)), prop=pr)
-    add('%s::sub_inplace' % low, f, r'<impl>::sub_inplace$', bi, at, simple_cases([ty, ty], at), expect_value(ty, lambda a, b, ty=ty: A.sub(ty, a, b)), prop=pr)
-    add('%s::neg_inplace' % low, f, r'<impl>::neg_inplace$', un, at, simple_cases([ty], at), expect_value(ty, lambda a, ty=ty: A.neg(ty, a)), prop=pr)
-    add('%s::mul_inplace' % low, f, r'<impl>::mul_inplace$', bi, at, simple_cases([ty, ty], at), expect_value(ty, lambda a, b, ty=ty: A.mul(ty, a, b)), prop=pr)
-    add('%s::double' % low, f, r'<impl>::double$', un, at, simple_cases([ty], at), expect_value(ty, lambda a, ty=ty: A.dbl(ty, a)), prop=pr)
-    add('%s::triple' % low, f, r'<impl>::triple$', un, at, simple_cases([ty], at), expect_value(ty, lambda a, ty=ty: A.scalar(ty, a, 3)), prop=pr)
-    add('%s::squared' % low, f, r'<impl>::squared$', un, at, simple_cases([ty], at), expect_value(ty, lambda a, ty=ty: A.mul(ty, a, a)), prop=pr)
-    add('%s::zero' % low, f, r'<impl>::zero$', r'^\(\) -> ', at, lambda: [Case('all', [])],
-        expect_value(ty, lambda ty=ty: A.zero(ty, fresh(ty, 'z', ('Fq',)))), prop=pr)
-    add('%s::one' % low, f, r'<impl>::one$', r'^\(\) -> ', at, lambda: [Case('all', [])],
-        expect_value(ty, lambda ty=ty: A.one(ty, fresh(ty, 'z', ('Fq',)))), prop=pr)
+    c1 = simple_cases([ty], at)
+    c2 = simple_cases([ty, ty], at)
+    h = lambda m, n=1, ty=ty, low=low: ('%s::%s' % (low, m), [ty] * n, ty)
+    add(low + '::add_inplace', f, r'<impl>::add_inplace$', bi, at, c2, lambda A, a, b, ty=ty: A.add(ty, a, b), ty, pr, h('add', 2))
+    add(low + '::sub_inplace', f, r'<impl>::sub_inplace$', bi, at, c2, lambda A, a, b, ty=ty: A.sub(ty, a, b), ty, pr, h('sub', 2))
+    add(low + '::neg_inplace', f, r'<impl>::neg_inplace$', un, at, c1, lambda A, a, ty=ty: A.neg(ty, a), ty, pr, h('neg'))
+    add(low + '::mul_inplace', f, r'<impl>::mul_inplace$', bi, at, c2, lambda A, a, b, ty=ty: A.mul(ty, a, b), ty, pr, h('mul', 2))
+    add(low + '::double', f, r'<impl>::double$', un, at, c1, lambda A, a, ty=ty: A.dbl(ty, a), ty, pr, h('double'))
+    add(low + '::triple', f, r'<impl>::triple$', un, at, c1, lambda A, a, ty=ty: A.scalar(ty, a, 3), ty, pr, h('triple'))
+    add(low + '::squared', f, r'<impl>::squared$', un, at, c1, lambda A, a, ty=ty: A.mul(ty, a, a), ty, pr, h('squared'))
+    add(low + '::zero', f, r'<impl>::zero$', r'^\(\) -> ', at, lambda: [Case('all', [])], lambda A, ty=ty: A.zero(ty), ty, pr, h('zero', 0))
+    add(low + '::one', f, r'<impl>::one$', r'^\(\) -> ', at, lambda: [Case('all', [])], lambda A, ty=ty: A.one(ty), ty, pr, h('one', 0))
     if ty != 'Fq12':
-        add('%s::unitary_inverse' % low, f, r'<impl>::unitary_inverse$', un, at, simple_cases([ty], at), expect_value(ty, lambda a, ty=ty: A.conj(ty, a)), prop=pr)
-    add('%s::mul_by_nonresidue' % low, f, r'<impl>::mul_by_nonresidue$', un, at, simple_cases([ty], at),
-        expect_value(ty, lambda a, ty=ty: A.nonresidue_times(ty, a) if ty != 'Fq12' else
-                     mk('Fq12', [A.nonresidue_times('Fq4', a[2][2]), a[2][0], a[2][1]])), prop=pr)
+        add(low + '::unitary_inverse', f, r'<impl>::unitary_inverse$', un, at, c1, lambda A, a, ty=ty: A.conj(ty, a), ty, pr, h('unitary_inverse'))
+        add(low + '::mul_by_nonresidue', f, r'<impl>::mul_by_nonresidue$', un, at, c1, lambda A, a, ty=ty: A.nonresidue_times(ty, a), ty, pr, h('mul_by_nonresidue'))
+    else:
+        add(low + '::mul_by_nonresidue', f, r'<impl>::mul_by_nonresidue$', un, at, c1, nr12, ty, pr, h('mul_by_nonresidue'))
 
     # is_zero: true iff every coordinate is zero
     def is_zero_post(case, st, ret, interp, ty=ty):
         x = unref(interp, st, case.args[0])
-        leaves = A.leaves(x)
+        leaves = SYM.leaves(x)
         allz = all(st.facts.is_zero(p) for p in leaves)
         somenz = any(st.facts.is_nonzero(p) for p in leaves)
         if ret[1] and not allz:
@@ -56,12 +63,13 @@ for ty in ('Fq2', 'Fq4', 'Fq12'):
         if (not ret[1]) and not somenz:
             raise Violation("is_zero returned false although no coordinate is known to be non-zero")
         return [('post', [])]
-    add('%s::is_zero' % low, f, r'<impl>::is_zero$', r'^\(&%s\) -> bool$' % T, at, simple_cases([ty], at), is_zero_post, prop=pr)
+    add(low + '::is_zero', f, r'<impl>::is_zero$', r'^\(&%s\) -> bool$' % T, at, c1,
+        lambda A, a: all(x == 0 for x in A.leaves(a)), 'bool', pr, (low + '::is_zero', [ty], 'bool'), post=is_zero_post)
 
-    # derived ==  (structural equality of all coordinates)
+    # derived == : structural equality of all coordinates
     def eq_post(case, st, ret, interp, ty=ty):
         a = unref(interp, st, case.args[0]); b = unref(interp, st, case.args[1])
-        d = A.eq_components(ty, a, b)
+        d = SYM.eq_components(ty, a, b)
         allz = all(st.facts.is_zero(p) for p in d)
         somenz = any(st.facts.is_nonzero(p) for p in d)
         if ret[1] and not allz:
@@ -69,7 +77,8 @@ for ty in ('Fq2', 'Fq4', 'Fq12'):
         if (not ret[1]) and not somenz:
             raise Violation("== returned false for values not known to differ")
         return [('post', [])]
-    add('%s::eq' % low, f, r'<impl>::eq$', r'^\(&%s, &%s\) -> bool$' % (T, T), at, simple_cases([ty, ty], at), eq_post, prop=pr)
+    add(low + '::eq', f, r'<impl>::eq$', r'^\(&%s, &%s\) -> bool$' % (T, T), at, c2,
+        lambda A, a, b: A.leaves(a) == A.leaves(b), 'bool', pr, (low + '::eq', [ty, ty], 'bool'), post=eq_post)
 
     # inverse: None iff x = 0 ; Some(y) with x*y = 1
     lvl = {'Fq2': ('Fq',), 'Fq4': ('Fq2', 'Fq'), 'Fq12': ('Fq4', 'Fq2', 'Fq')}[ty]
@@ -79,7 +88,7 @@ for ty in ('Fq2', 'Fq4', 'Fq12'):
         def setup(facts, den=den):
             # spec case "x != 0": by A2 the norm of a non-zero element is non-zero
             facts.assume_nonzero(den)
-        return [Case('zero', [ref(A.zero(ty, x))]), Case('nonzero', [ref(x)], setup)]
+        return [Case('zero', [ref(SYM.zero(ty, x))]), Case('nonzero', [ref(x)], setup)]
     def inv_post(case, st, ret, interp, ty=ty):
         x = unref(interp, st, case.args[0])
         if case.name == 'zero':
@@ -89,52 +98,64 @@ for ty in ('Fq2', 'Fq4', 'Fq12'):
         if ret[1] != 'Some':
             raise Violation("inverse(x) is None for x != 0")
         y = ret[2][0]
-        prod = A.mul(ty, x, y)
-        return [('inverse_times_self_is_one', A.eq_components(ty, prod, A.one(ty, x)))]
-    add('%s::inverse' % low, f, r'<impl>::inverse$', r'^\(&%s\) -> Option<' % T, lvl, inv_cases, inv_post, prop=pr)
+        prod = SYM.mul(ty, x, y)
+        return [('inverse_times_self_is_one', SYM.eq_components(ty, prod, SYM.one(ty, x)))]
+    def inv_oracle(A, a, ty=ty):
+        import sm9spec
+        if sm9spec.tw_is_zero(a):
+            return None
+        return sm9spec.tw_inv(ty, a)
+    add(low + '::inverse', f, r'<impl>::inverse$', r'^\(&%s\) -> Option<' % T, lvl, inv_cases, inv_oracle, ty, pr,
+        (low + '::inverse', [ty], 'opt:' + ty), post=inv_post)
 
 # ---- Fq2-only
 f2 = FILES['Fq2']
 add('fq2::new', f2, r'<impl>::new$', None, ('Fq',), simple_cases(['Fq', 'Fq'], ('Fq',), by_ref=False),
-    expect_value('Fq2', lambda a, b: mk('Fq2', [a, b])), prop=('C12',))
+    lambda A, a, b: mk('Fq2', [a, b]), 'Fq2', ('C12',))
 add('fq2::scale', f2, r'<impl>::scale$', None, ('Fq',), simple_cases(['Fq2', 'Fq'], ('Fq',)),
-    expect_value('Fq2', lambda a, s: mk('Fq2', [a[2][0] * s, a[2][1] * s])), prop=('C12',))
+    lambda A, a, s: A.mul('Fq2', a, s), 'Fq2', ('C12',), ('fq2::scale', ['Fq2', 'Fq'], 'Fq2'))
 add('fq2::div2', f2, r'<impl>::div2$', None, ('Fq',), simple_cases(['Fq2'], ('Fq',)),
-    expect_value('Fq2', lambda a: A.scalar('Fq2', a, HALF)), prop=('C12',))
+    lambda A, a: A.scalar('Fq2', a, HALF), 'Fq2', ('C12',), ('fq2::div2', ['Fq2'], 'Fq2'))
 add('fq2::i', f2, r'<impl>::i$', None, ('Fq',), lambda: [Case('all', [])],
-    expect_value('Fq2', lambda: mk('Fq2', [Poly(), C(1)])), prop=('C12',))
+    lambda A: mk('Fq2', [A.L.zero(), A.L.one()]), 'Fq2', ('C12',), ('fq2::i', [], 'Fq2'))
 def _proj_post(idx):
     def post(case, st, ret, interp):
         x = unref(interp, st, case.args[0])
         r = unref(interp, st, ret)
         return [('post', [r - x[2][idx]])]
     return post
-add('fq2::real', f2, r'<impl>::real$', None, ('Fq',), simple_cases(['Fq2'], ('Fq',)), _proj_post(0), prop=('C12',))
-add('fq2::imaginary', f2, r'<impl>::imaginary$', None, ('Fq',), simple_cases(['Fq2'], ('Fq',)), _proj_post(1), prop=('C12',))
+add('fq2::real', f2, r'<impl>::real$', None, ('Fq',), simple_cases(['Fq2'], ('Fq',)), None, 'Fq', ('C12',), post=_proj_post(0))
+add('fq2::imaginary', f2, r'<impl>::imaginary$', None, ('Fq',), simple_cases(['Fq2'], ('Fq',)), None, 'Fq', ('C12',), post=_proj_post(1))
 
 # ---- Fq4-only
 f4 = FILES['Fq4']
 add('fq4::new', f4, r'<impl>::new$', None, ('Fq',), simple_cases(['Fq2', 'Fq2'], ('Fq',), by_ref=False),
-    expect_value('Fq4', lambda a, b: mk('Fq4', [a, b])), prop=('C17',))
+    lambda A, a, b: mk('Fq4', [a, b]), 'Fq4', ('C17',))
 add('fq4::scale', f4, r'<impl>::scale$', None, ('Fq',), simple_cases(['Fq4', 'Fq2'], ('Fq',)),
-    expect_value('Fq4', lambda a, s: mk('Fq4', [A.mul('Fq2', a[2][0], s), A.mul('Fq2', a[2][1], s)])), prop=('C17',))
+    lambda A, a, s: mk('Fq4', [A.mul('Fq2', a[2][0], s), A.mul('Fq2', a[2][1], s)]), 'Fq4', ('C17',), ('fq4::scale', ['Fq4', 'Fq2'], 'Fq4'))
 add('fq4::scale_fq', f4, r'<impl>::scale_fq$', None, ('Fq',), simple_cases(['Fq4', 'Fq'], ('Fq',)),
-    expect_value('Fq4', lambda a, s: A.mul('Fq4', a, s)), prop=('C17',))
+    lambda A, a, s: A.mul('Fq4', a, s), 'Fq4', ('C17',), ('fq4::scale_fq', ['Fq4', 'Fq'], 'Fq4'))
 def mul1_cases():
     a = fresh('Fq4', 'a', ('Fq',)); b = fresh('Fq4', 'b', ('Fq',))
-    b = mk('Fq4', [A.zero('Fq2', b[2][0]), b[2][1]])     # precondition: b.c0 == 0
+    b = mk('Fq4', [SYM.zero('Fq2', b[2][0]), b[2][1]])     # precondition: b.c0 == 0
     return [Case('sparse', [ref(a), ref(b)])]
-add('fq4::mul_1', f4, r'<impl>::mul_1$', None, ('Fq',), mul1_cases, expect_value('Fq4', lambda a, b: A.mul('Fq4', a, b)), prop=('C17',))
+def mul1_pre(A, a, b):
+    return [a, mk('Fq4', [A.zero('Fq2'), b[2][1]])]
+add('fq4::mul_1', f4, r'<impl>::mul_1$', None, ('Fq',), mul1_cases, lambda A, a, b: A.mul('Fq4', a, b), 'Fq4', ('C17',),
+    ('fq4::mul_1', ['Fq4', 'Fq4'], 'Fq4'), pre_num=mul1_pre)
 
 # ---- Fq12-only
 f12 = FILES['Fq12']
 add('fq12::new', f12, r'<impl>::new$', None, ('Fq',), simple_cases(['Fq4', 'Fq4', 'Fq4'], ('Fq',), by_ref=False),
-    expect_value('Fq12', lambda a, b, c: mk('Fq12', [a, b, c])), prop=('C17',))
+    lambda A, a, b, c: mk('Fq12', [a, b, c]), 'Fq12', ('C17',))
 add('fq12::scale', f12, r'<impl>::scale$', None, ('Fq',), simple_cases(['Fq12', 'Fq4'], ('Fq',)),
-    expect_value('Fq12', lambda a, s: mk('Fq12', [A.mul('Fq4', c, s) for c in a[2]])), prop=('C17',))
+    lambda A, a, s: mk('Fq12', [A.mul('Fq4', c, s) for c in a[2]]), 'Fq12', ('C17',), ('fq12::scale', ['Fq12', 'Fq4'], 'Fq12'))
 def mul015_cases():
     a = fresh('Fq12', 'a', ('Fq',)); b = fresh('Fq12', 'b', ('Fq',))
     c2 = b[2][2]
-    b = mk('Fq12', [b[2][0], A.zero('Fq4', b[2][1]), mk('Fq4', [A.zero('Fq2', c2[2][0]), c2[2][1]])])   # b.c1 == 0, b.c2 == (0,*)
+    b = mk('Fq12', [b[2][0], SYM.zero('Fq4', b[2][1]), mk('Fq4', [SYM.zero('Fq2', c2[2][0]), c2[2][1]])])   # b.c1 == 0, b.c2 == (0,*)
     return [Case('sparse', [ref(a), ref(b)])]
-add('fq12::mul_015', f12, r'<impl>::mul_015$', None, ('Fq',), mul015_cases, expect_value('Fq12', lambda a, b: A.mul('Fq12', a, b)), prop=('C17',))
+def mul015_pre(A, a, b):
+    return [a, mk('Fq12', [b[2][0], A.zero('Fq4'), mk('Fq4', [A.zero('Fq2'), b[2][2][2][1]])])]
+add('fq12::mul_015', f12, r'<impl>::mul_015$', None, ('Fq',), mul015_cases, lambda A, a, b: A.mul('Fq12', a, b), 'Fq12', ('C17',),
+    ('fq12::mul_015', ['Fq12', 'Fq12'], 'Fq12'), pre_num=mul015_pre)
